@@ -523,6 +523,62 @@ def _hier4():
 _hier4()
 
 # ------------------------------------------------------------------------------------------------
+# twosub: two different submachine types side by side in one parent, a self-transition on a submachine state, a submachine
+# that is the initial state of a region of another submachine
+reg(Zoo(
+    name='twosub',
+    events=['e1', 'e2', 'e3'],
+    root=Machine(
+        'TS',
+        states=[
+            S('SA', kind='sub', sub=Machine(
+                'SA',
+                states=[S('a1'), S('a2')],
+                initial=['a1'],
+                rows=[R('a1', 'e1', 'a2'), R('a2', 'e1', 'a1', a=False, g=False)],
+            )),
+            S('SB', kind='sub', sub=Machine(
+                'SB',
+                states=[
+                    S('SC', kind='sub', sub=Machine(
+                        'SC',
+                        states=[S('c1'), S('c2')],
+                        initial=['c1'],
+                        rows=[R('c1', 'e2', 'c2', a=False), R('c2', 'e2', 'c1', a=False, g=False)],
+                    )),
+                    S('b1'), S('b2'),
+                ],
+                initial=['SC', 'b1'],
+                rows=[R('b1', 'e1', 'b2', a=False, g=False), R('b2', 'e1', 'b1', g=False)],
+            )),
+            S('Z1'), S('Z2'),
+        ],
+        initial=['SA', 'Z1'],
+        rows=[
+            R('SA', 'e3', 'SB', a=False, g=False),
+            R('SB', 'e3', 'SA', a=False),
+            R('SA', 'e2', 'SA'),                         # self-transition on a submachine state: exit everything, enter again
+            R('SB', 'e2', 'SB', a=False),                # tried only when the inner machine SC did not consume e2
+            R('Z1', 'e1', 'Z2', a=False, g=False),
+            R('Z2', 'e1', 'Z1', a=False, g=False),
+        ],
+    ),
+))
+
+
+def _entry_history():
+    import copy
+    for tag, hist in (('A', 'always'), ('S', ('shallow', ['e1', 'e4']))):
+        z = copy.deepcopy(ZOO['entry'])
+        z.name = 'entry' + tag
+        z.root.state('Sub').sub.history = hist
+        z.menu = []
+        reg(z)
+
+
+_entry_history()
+
+# ------------------------------------------------------------------------------------------------
 # flags3: three nesting levels; F1 is carried only by a state of the innermost machine (no direct state of the
 # middle machine carries it), F2 by states of the root and of the middle machine, F3 at the innermost and middle level
 def _flags3():
